@@ -130,3 +130,193 @@ Proof.
   induction H; simpl; constructor; auto.
 Qed.
 End S.
+
+(* ------------------------------------------------------------------ instance: Progress operations *)
+(* shared state = the Progress object and a tick clock; every operation reads the clock inside its
+   critical section (two ticks: t1, t2) *)
+Definition psh : Type := (progress * Z)%type.
+Definition seq_op (o : op) (x : psh) : psh :=
+  (step_total (fst x) o (qZ (snd x)) (qZ (snd x + 1)), snd x + 2).
+Fixpoint tick_hist (c : Z) (os : list op) : list hop :=
+  match os with [] => [] | o :: r => (o, qZ c, qZ (c + 1)) :: tick_hist (c + 2) r end.
+
+Lemma seq_ops_run os : forall p c,
+  fold_left (fun x o => seq_op o x) os (p, c) = (Progress.run p (tick_hist c os), c + 2 * zlen os).
+Proof.
+  induction os as [|o os IH]; intros p c; simpl.
+  - f_equal. unfold zlen. simpl. lia.
+  - unfold seq_op at 2. simpl. rewrite IH. f_equal. unfold zlen. simpl length. lia.
+Qed.
+Lemma tick_mono os : forall c t0, (t0 <= qZ c)%Q -> mono_hist t0 (tick_hist c os).
+Proof.
+  induction os as [|o os IH]; intros c t0 H; simpl; auto. splits; auto.
+  - unfold qZ. rewrite <- Zle_Qle. lia.
+  - apply IH. unfold qZ. rewrite <- Zle_Qle. lia.
+Qed.
+Lemma tick_ops os : forall c, ops_of (tick_hist c os) = os.
+Proof. induction os; intros c; simpl; auto. unfold ops_of in *. simpl. rewrite IHos. reflexivity. Qed.
+Lemma tick_nonneg os : forall c, Forall (fun o => nonneg_op o = true) os -> nonneg_hist (tick_hist c os) = true.
+Proof.
+  induction os; intros c H; simpl; auto. inversion H; subst. unfold nonneg_hist in *. simpl.
+  rewrite H2. simpl. apply IHos. exact H3.
+Qed.
+Lemma tick_quiet id os : forall c, Forall (fun o => resets o id = false /\ not_removing o id) os -> quiet id (tick_hist c os).
+Proof. induction os; intros c H; simpl; auto. inversion H; subst. destruct H2. splits; auto. Qed.
+
+Section Inst.
+Variables Lo Ms : Type.
+Variable mexec : Ms -> psh * Lo -> psh * Lo.
+Variable body : op -> list Ms.
+Variable lo0 : op -> Lo.
+(* the decomposition is a decomposition of the sequential operation -- nothing else is assumed of it *)
+Hypothesis body_ok : forall o x, Ser.run_op mexec body lo0 o x = seq_op o x.
+
+Notation run := (Ser.run mexec body lo0).
+Notation init := (@Ser.init psh Lo op Ms).
+
+Lemma seq_run_is os : forall x, Ser.seq_run mexec body lo0 os x = fold_left (fun x o => seq_op o x) os x.
+Proof. induction os; intros x; simpl; auto. rewrite body_ok. apply IHos. Qed.
+
+(* at every quiescent point of every interleaving, the Progress object is what the sequential model
+   computes for the operations in lock-acquisition order with a strictly increasing clock *)
+Theorem concurrent_is_sequential per progs sched :
+  let s := run (init (empty_progress per, 0) progs) sched in
+  Ser.lock s = None ->
+  exists os, (forall P : op -> Prop, Forall (Forall P) progs -> Forall P os) /\
+             fst (Ser.sh s) = Progress.run (empty_progress per) (tick_hist 0 os) /\
+             mono_hist 0 (tick_hist 0 os).
+Proof.
+  intros s Hq. exists (hist_ops psh Lo op Ms s). splits.
+  - intros P HP. apply hist_ops_from_programs. exact HP.
+  - pose proof (quiescent_is_sequential psh Lo op Ms mexec body lo0 (empty_progress per, 0) progs sched Hq) as H.
+    fold s in H. rewrite H, seq_run_is, seq_ops_run. reflexivity.
+  - apply tick_mono. apply Qle_refl.
+Qed.
+
+(* the sequential theorems, at every quiescent point of every interleaving *)
+Theorem concurrent_completed_accounting per progs sched :
+  let s := run (init (empty_progress per, 0) progs) sched in
+  Ser.lock s = None ->
+  exists os, (forall P : op -> Prop, Forall (Forall P) progs -> Forall P os) /\
+  Forall2 (fun t r => t_id t = r_id r /\ completed_ok_b (r_base r) (r_advs r) (t_completed t) = true)
+          (p_tasks (fst (Ser.sh s))) (c_refs (fold_left ref_step os (mkC [] 0%Z true))).
+Proof.
+  intros s Hq. destruct (concurrent_is_sequential per progs sched Hq) as (os & HP & Hrun & _).
+  exists os. split; auto. fold s in Hrun. rewrite Hrun.
+  pose proof (completed_is_set_plus_advances per (tick_hist 0 os)) as H. rewrite tick_ops in H. exact H.
+Qed.
+
+Theorem concurrent_speed_nonneg per progs sched :
+  Forall (Forall (fun o => nonneg_op o = true)) progs ->
+  let s := run (init (empty_progress per, 0) progs) sched in
+  Ser.lock s = None ->
+  Forall (fun t => speed_ok_b (speed t) = true) (p_tasks (fst (Ser.sh s))).
+Proof.
+  intros Hnn s Hq. destruct (concurrent_is_sequential per progs sched Hq) as (os & HP & Hrun & Hm).
+  fold s in Hrun. rewrite Hrun. apply speed_nonneg with (t0 := 0%Q); auto.
+  apply tick_nonneg. apply HP. exact Hnn.
+Qed.
+
+Theorem concurrent_percentage per progs sched :
+  let s := run (init (empty_progress per, 0) progs) sched in
+  Forall (fun t => pct_ok_b 0 (t_completed t) (t_total t) (percentage t) = true) (p_tasks (fst (Ser.sh s))).
+Proof. intros s. apply Forall_forall. intros t _. apply percentage_clamped. Qed.
+
+Lemma tick_hist_app os1 : forall c os2,
+  tick_hist c (os1 ++ os2) = tick_hist c os1 ++ tick_hist (c + 2 * zlen os1) os2.
+Proof.
+  induction os1 as [|o os1 IH]; intros c os2; simpl.
+  - f_equal. unfold zlen. simpl. lia.
+  - rewrite IH. replace (c + 2 + 2 * zlen os1) with (c + 2 * zlen (o :: os1)) by (unfold zlen; simpl length; lia).
+    reflexivity.
+Qed.
+
+(* right after the critical section of an advance / update of task id (the last lock acquisition),
+   at a quiescent point: finished is reported and the time-remaining estimate is not negative *)
+Theorem concurrent_after_advance per progs sched os' o id t' :
+  Forall (Forall (fun o => nonneg_op o = true)) progs ->
+  let s := run (init (empty_progress per, 0) progs) sched in
+  Ser.lock s = None -> map snd (Ser.hist s) = os' ++ [o] -> advances o id = true ->
+  find_task id (p_tasks (fst (Ser.sh s))) = Some t' ->
+  finish_ok_b (started t') (t_completed t') (t_total t') (finished t') = true /\
+  (started t' = true -> tr_ok_b (time_remaining t') = true).
+Proof.
+  intros Hnn s Hq Hh Ha Hf.
+  pose proof (quiescent_is_sequential psh Lo op Ms mexec body lo0 (empty_progress per, 0) progs sched Hq) as H.
+  fold s in H. unfold hist_ops in H. rewrite Hh, seq_run_is, seq_ops_run in H. rewrite H in Hf. cbn [fst] in Hf.
+  set (c := 0 + 2 * zlen os') in *.
+  assert (E : tick_hist 0 (os' ++ [o]) = tick_hist 0 os' ++ [(o, qZ c, qZ (c + 1))])
+    by (rewrite tick_hist_app; reflexivity).
+  rewrite E in Hf.
+  assert (Hall : Forall (fun o => nonneg_op o = true) (os' ++ [o])).
+  { rewrite <- Hh. apply (hist_ops_from_programs psh Lo op Ms mexec body lo0 (empty_progress per, 0) _ progs sched Hnn). }
+  split.
+  - unfold Progress.run in Hf. rewrite fold_left_app in Hf. simpl in Hf.
+    eapply finish_reported; eauto.
+  - intros Hst.
+    assert (M : mono_hist 0 (tick_hist 0 os' ++ [(o, qZ c, qZ (c + 1))])).
+    { rewrite <- E. apply tick_mono. apply Qle_refl. }
+    assert (N : nonneg_hist (tick_hist 0 os' ++ [(o, qZ c, qZ (c + 1))]) = true).
+    { rewrite <- E. apply tick_nonneg. exact Hall. }
+    exact (time_remaining_nonneg per (tick_hist 0 os') 0%Q o (qZ c) (qZ (c + 1)) id t' M N Ha Hf Hst).
+Qed.
+
+(* the history only grows *)
+Lemma hist_extends sched : forall s, exists ext, Ser.hist (run s sched) = Ser.hist s ++ ext.
+Proof.
+  induction sched as [|i sched IH]; intros s; simpl.
+  - exists []. rewrite app_nil_r. reflexivity.
+  - destruct (IH (Ser.step mexec body lo0 s i)) as [ext He]. rewrite He.
+    assert (H1 : exists e1, Ser.hist (Ser.step mexec body lo0 s i) = Ser.hist s ++ e1).
+    { unfold Ser.step. destruct (nth_error (Ser.ths s) i) as [th|]; [|exists []; rewrite app_nil_r; reflexivity].
+      destruct (Ser.cur th) as [[lo [|m rest]]|].
+      - exists []. simpl. rewrite app_nil_r. reflexivity.
+      - destruct (mexec m (Ser.sh s, lo)). exists []. simpl. rewrite app_nil_r. reflexivity.
+      - destruct (Ser.todo th); [exists []; rewrite app_nil_r; reflexivity|].
+        destruct (Ser.lock s); [exists []; rewrite app_nil_r; reflexivity|]. eexists. simpl. reflexivity. }
+    destruct H1 as [e1 ->]. exists (e1 ++ ext). rewrite app_assoc. reflexivity.
+Qed.
+
+(* finish time latched between any two quiescent points, whatever the other threads do, as long as
+   no program changes the task's total, resets it or removes it *)
+Theorem concurrent_finish_latched per progs sched1 sched2 id t f :
+  Forall (Forall (fun o => resets o id = false /\ not_removing o id)) progs ->
+  let s1 := run (init (empty_progress per, 0) progs) sched1 in
+  let s2 := run s1 sched2 in
+  Ser.lock s1 = None -> Ser.lock s2 = None ->
+  find_task id (p_tasks (fst (Ser.sh s1))) = Some t -> t_fin t = Some f ->
+  exists t', find_task id (p_tasks (fst (Ser.sh s2))) = Some t' /\ t_fin t' = Some f.
+Proof.
+  intros Hq s1 s2 Hl1 Hl2 Hfind Hfin.
+  assert (Hs2 : s2 = run (init (empty_progress per, 0) progs) (sched1 ++ sched2)).
+  { unfold s2, s1, Ser.run. rewrite fold_left_app. reflexivity. }
+  pose proof (quiescent_is_sequential psh Lo op Ms mexec body lo0 (empty_progress per, 0) progs sched1 Hl1) as H1.
+  fold s1 in H1.
+  assert (Hl2' : Ser.lock (run (init (empty_progress per, 0) progs) (sched1 ++ sched2)) = None) by (rewrite <- Hs2; exact Hl2).
+  pose proof (quiescent_is_sequential psh Lo op Ms mexec body lo0 (empty_progress per, 0) progs (sched1 ++ sched2) Hl2') as H2.
+  rewrite <- Hs2 in H2.
+  destruct (hist_extends sched2 s1) as [ext Hext]. fold s2 in Hext.
+  unfold hist_ops in H1, H2. rewrite Hext, map_app in H2. rewrite seq_run_is in H1, H2.
+  rewrite fold_left_app, <- H1 in H2. destruct (Ser.sh s1) as [p1 c1] eqn:E1. rewrite seq_ops_run in H2.
+  rewrite H2. simpl. simpl in Hfind.
+  apply finished_latches with (t := t); auto. apply tick_quiet.
+  pose proof (hist_ops_from_programs psh Lo op Ms mexec body lo0 (empty_progress per, 0) _ progs (sched1 ++ sched2) Hq) as Hall.
+  rewrite <- Hs2 in Hall. unfold hist_ops in Hall. rewrite Hext, map_app in Hall. apply Forall_app in Hall. tauto.
+Qed.
+End Inst.
+
+(* the assumption behind this section, checked on the event lists regenerated from rich/progress.py:
+   every mutator is one critical section containing all its shared accesses and clock reads *)
+Lemma mutators_single_cs :
+  forallb SerFacts.single_cs_b [advance_events; update_events; reset_events; start_task_events; stop_task_events] = true
+  /\ forallb (fun l => Nat.eqb (SerFacts.count_acq l) 1 && Conc.guarded l) [remove_task_events; add_task_events] = true.
+Proof. vm_compute. split; reflexivity. Qed.
+
+(* non-vacuity: a decomposition exists (the trivial one-step one), and a two-thread run *)
+Example ser_nonvacuous :
+  let mexec := fun (o : op) (x : psh * unit) => (seq_op o (fst x), tt) in
+  let s := Ser.run mexec (fun o => [o]) (fun _ => tt)
+             (@Ser.init psh unit op op (empty_progress 30, 0) [[AddTask true 10 0 true; Advance 0 3]; [Advance 0 4]])
+             [0; 0; 0; 1; 1; 1; 0; 0; 0]%nat in
+  Ser.lock s = None /\ map t_completed (p_tasks (fst (Ser.sh s))) = [0 + 4 + 3]%Q.
+Proof. vm_compute. split; reflexivity. Qed.
